@@ -537,6 +537,65 @@ def undefined_self_attrs(ct, ci):
     return out
 
 
+def _is_abstract(ct, ci):
+    """some method resolved along the MRO only raises NotImplementedError"""
+    seen = set()
+    for k in ci.mro:
+        for name, f in k.methods.items():
+            if name in seen:
+                continue
+            seen.add(name)
+            body = [s for s in f.body if not (isinstance(s, ast.Expr) and isinstance(
+                s.value, ast.Constant))]
+            if len(body) == 1 and isinstance(body[0], ast.Raise) and body[0].exc is not None and \
+                    'NotImplementedError' in ast.unparse(body[0].exc):
+                return True
+    return False
+
+
+def subclass_only_attrs(ct, ci):
+    """reads `self.X` in the body of a CONCRETE class ci (own __init__, no method that only raises
+    NotImplementedError) where X is bound only in subclasses: an instance of ci itself does not
+    have it. None if the class family creates attributes dynamically."""
+    from .core import is_self_attr
+    if '__init__' not in ci.methods or _is_abstract(ct, ci):
+        return []
+    if undefined_self_attrs(ct, ci) is None:
+        return None
+    fam = set()
+    for k in ci.mro:
+        for st in k.node.body:
+            if isinstance(st, ast.Assign):
+                for t in st.targets:
+                    fam.update(n.id for n in ast.walk(t) if isinstance(n, ast.Name))
+            elif isinstance(st, ast.AnnAssign) and isinstance(st.target, ast.Name):
+                fam.add(st.target.id)
+            elif isinstance(st, (ast.FunctionDef, ast.AsyncFunctionDef, ast.ClassDef)):
+                fam.add(st.name)
+        for n in ast.walk(k.node):
+            if isinstance(n, ast.Attribute) and isinstance(n.ctx, (ast.Store, ast.Del)) and \
+                    isinstance(n.value, ast.Name):
+                fam.add(n.attr)
+            elif isinstance(n, ast.Call) and isinstance(n.func, ast.Name) and \
+                    n.func.id == 'setattr' and len(n.args) >= 2 and isinstance(
+                        n.args[1], ast.Constant):
+                fam.add(n.args[1].value)
+    out = []
+    for st in ci.node.body:
+        if not isinstance(st, (ast.FunctionDef, ast.AsyncFunctionDef)):
+            continue
+        guarded = {n.args[1].value for n in ast.walk(st) if isinstance(n, ast.Call) and isinstance(
+            n.func, ast.Name) and n.func.id in ('hasattr', 'getattr') and len(n.args) >= 2 and
+            isinstance(n.args[1], ast.Constant)}
+        called = {id(c.func) for c in ast.walk(st) if isinstance(c, ast.Call)}
+        for n in ast.walk(st):
+            if is_self_attr(n) and isinstance(n.ctx, ast.Load) and n.attr not in fam and \
+                    n.attr not in guarded and not n.attr.startswith('__') and \
+                    id(n) not in called:      # calling a hook of the subclasses: template method
+                out.append((st.name, n))
+    return out
+
+
 def check_undefined_attrs(prog, rep, rels, rule='ATTR-defined'):
     """Every `self.X` read in the classes of the given modules names an attribute that some method
     of the class family binds: a read of a name nobody binds is an AttributeError waiting on the
@@ -559,5 +618,13 @@ def check_undefined_attrs(prog, rep, rels, rule='ATTR-defined'):
                           '`self.%s` is read, but no method of %s, its bases or subclasses ever '
                           'binds an attribute of that name: AttributeError on the path that '
                           'reaches this line' % (node.attr, ci.name), node.lineno)
+        for meth, node in subclass_only_attrs(ct, ci) or []:
+            if (meth, node.attr) in seen:
+                continue
+            seen.add((meth, node.attr))
+            rep.violation(rule, ci.module, '%s.%s' % (ci.name, meth), 'subclass-only:' + node.attr,
+                          '`self.%s` is read in the concrete class %s, but only subclasses bind '
+                          'an attribute of that name: AttributeError for an instance of %s '
+                          'itself' % (node.attr, ci.name, ci.name), node.lineno)
     rep.instance(rule, {'classes_analysed': n, 'modules': sorted(rels)})
     return n
